@@ -125,6 +125,21 @@ func RtLog(topic uint64, k, v uint64) []byte {
 // RtSuicideTo: SELFDESTRUCT(beneficiary)
 func RtSuicideTo(b common.Address) []byte { return (&Asm{}).PushAddr(b).Op(SELFDESTRUCT).Bytes() }
 
+// RtCallcodeValueLoop: n times CALLCODE(gas 0, to, value 1) (to has no code: only the value surcharge and the stipend matter).
+func RtCallcodeValueLoop(n uint64, to common.Address) []byte {
+	a := &Asm{}
+	a.Op(PUSH1+1, byte(n>>8), byte(n)) // PUSH2 n
+	l := a.Len()
+	a.Op(JUMPDEST)
+	a.Op(PUSH1, 0, PUSH1, 0, PUSH1, 0, PUSH1, 0, PUSH1, 1) // outSize outOff inSize inOff value
+	a.PushAddr(to)
+	a.Op(PUSH1, 0) // gas
+	a.Op(CALLCODE, POP)
+	a.Op(PUSH1, 1, SWAP1, SUB, DUP1)
+	a.Op(PUSH1, byte(l), JUMPI, STOP)
+	return a.Bytes()
+}
+
 // RtSuicideSelf: SELFDESTRUCT(ADDRESS)
 func RtSuicideSelf() []byte { return (&Asm{}).Op(ADDRESS, SELFDESTRUCT).Bytes() }
 
